@@ -131,6 +131,54 @@ func genSpecials(r *Rng) []special {
 `, first, second)
 	}
 	out = append(out, special{Name: "select-case-exchange", Family: "select", P: sel("c1", "c2"), Q: sel("c2", "c1")})
+	// 3b. three receive cases whose received VALUES are used, two arms exchanged (Extract #2.. remapping)
+	sel3 := func(x, y, z string) string {
+		return specialHeader() + fmt.Sprintf(`func Special(a int, b int, s string, xs []int) int {
+	c1 := make(chan int, 1)
+	c2 := make(chan int, 1)
+	c3 := make(chan int, 1)
+	switch a %% 3 {
+	case 0:
+		c1 <- b + 1
+	case 1:
+		c2 <- b + 2
+	default:
+		c3 <- b + 3
+	}
+	select {
+	case v := <-%s:
+		return v * 2
+	case w := <-%s:
+		return w * 3
+	case u := <-%s:
+		return u * 5
+	}
+}
+`, x, y, z)
+	}
+	out = append(out, special{Name: "select-three-receives-arms-exchanged", Family: "select", P: sel3("c1", "c2", "c3"), Q: sel3("c3", "c2", "c1")})
+	// 3c. non-blocking select (default) with a send and a receive case, arms exchanged between the channels
+	seld := func(x, y string) string {
+		return specialHeader() + fmt.Sprintf(`func Special(a int, b int, s string, xs []int) int {
+	c1 := make(chan int, 1)
+	c2 := make(chan int, 1)
+	if a > b {
+		c1 <- a
+	} else if a < b {
+		c2 <- b
+	}
+	select {
+	case v := <-%s:
+		return v + 1000
+	case v := <-%s:
+		return v + 2000
+	default:
+		return -1
+	}
+}
+`, x, y)
+	}
+	out = append(out, special{Name: "select-with-default-arms-exchanged", Family: "select", P: seld("c1", "c2"), Q: seld("c2", "c1")})
 	// 4. edit beyond the size guard (> 5000 blocks)
 	big := func(inc int) string {
 		var sb strings.Builder
